@@ -707,10 +707,16 @@ func c11stale(rep *vh.Report, seed uint64, idx int) {
 		base[i] = tr.NWrites()
 	}
 	var wantAll, wantNone []uint64
-	for i := 0; i < 12; i++ {
+	for i := 0; i < 18; i++ {
 		uid := uint64(fam)<<56 | uint64(i+1)
 		m := &MessageVfUid{Uid: uid, Kind: 1}
-		switch i % 4 {
+		switch i % 6 {
+		case 4: // no channel at all (a variable that was never filled in): nobody is addressed
+			_ = n.node.WriteMessageTo(nil, m)
+			wantNone = append(wantNone, uid)
+		case 5:
+			_ = n.node.WriteFrameTo(nil, &frame.V2Frame{SystemID: 3, ComponentID: 4, SequenceNumber: byte(i), Message: m})
+			wantNone = append(wantNone, uid)
 		case 0:
 			_ = n.node.WriteMessageExcept(oldA, m)
 			wantAll = append(wantAll, uid)
